@@ -31,11 +31,14 @@ type Deferred struct {
 }
 
 type State struct {
-	pc     []string
-	vars   map[types.Object]*Val
-	heap   map[string]string
-	ghost  map[string]string
-	defers []*Deferred
+	pc        []string
+	vars      map[types.Object]*Val
+	heap      map[string]string
+	ghost     map[string]string
+	defers    []*Deferred
+	lits      map[string]string // term -> string literal constant it is known to equal
+	litsOwned bool
+	splitIdx  int // number of split-at-call conditions already consumed on this path
 }
 
 func (s *State) clone() *State {
@@ -50,6 +53,10 @@ func (s *State) clone() *State {
 		n.ghost[k] = v
 	}
 	n.defers = s.defers
+	n.lits = s.lits
+	n.splitIdx = s.splitIdx
+	n.litsOwned = false
+	s.litsOwned = false
 	return n
 }
 
@@ -57,7 +64,168 @@ func (s *State) assume(t string) {
 	if t == "true" || t == "" {
 		return
 	}
+	s.learn(t)
+	if curCtx != nil && len(t) > 600 {
+		t = curCtx.nameBool(t, "pc")
+	}
 	s.pc = append(s.pc, t)
+}
+
+var curCtx *FnCtx
+
+// learn records equalities/disequalities between terms and string literals (constant propagation for command
+// words), so that later comparisons against literals fold to true/false and infeasible switch arms are not explored.
+// Knowledge is kept per equivalence class (union-find over the terms seen in assumed equalities).
+func (s *State) learn(t string) {
+	for _, c := range topConjuncts(t) {
+		parts := sexpArgs(c)
+		if len(parts) == 2 && parts[0] == "not" {
+			if ip := sexpArgs(parts[1]); len(ip) == 3 && ip[0] == "=" {
+				a, b := ip[1], ip[2]
+				if isLitName(b) && !isLitName(a) {
+					s.put("!"+s.find(a)+"!"+b, "ne")
+				} else if isLitName(a) && !isLitName(b) {
+					s.put("!"+s.find(b)+"!"+a, "ne")
+				}
+			}
+			continue
+		}
+		if len(parts) != 3 || parts[0] != "=" {
+			continue
+		}
+		a, b := parts[1], parts[2]
+		if len(a) > 400 || len(b) > 400 || strings.HasPrefix(a, "(ite") || strings.HasPrefix(b, "(ite") {
+			continue
+		}
+		switch {
+		case isLitName(a) && isLitName(b):
+		case isLitName(b):
+			s.put("="+s.find(a), b)
+		case isLitName(a):
+			s.put("="+s.find(b), a)
+		default:
+			ra, rb := s.find(a), s.find(b)
+			if ra == rb {
+				continue
+			}
+			// merge rb into ra
+			s.put("^"+rb, ra)
+			if l, ok := s.lits["="+rb]; ok {
+				s.put("="+ra, l)
+			}
+			pre := "!" + rb + "!"
+			var mv []string
+			for k := range s.lits {
+				if strings.HasPrefix(k, pre) {
+					mv = append(mv, k)
+				}
+			}
+			for _, k := range mv {
+				s.put("!"+ra+"!"+k[len(pre):], "ne")
+			}
+		}
+	}
+}
+
+func (s *State) put(k, v string) {
+	if s.lits == nil {
+		s.lits = map[string]string{}
+	} else if !s.litsOwned {
+		n := make(map[string]string, len(s.lits)+1)
+		for k2, v2 := range s.lits {
+			n[k2] = v2
+		}
+		s.lits = n
+	}
+	s.litsOwned = true
+	s.lits[k] = v
+}
+
+func (s *State) setLit(term, lit string) { s.put("="+s.find(term), lit) }
+
+func (s *State) find(t string) string {
+	for i := 0; i < 64 && s.lits != nil; i++ {
+		n, ok := s.lits["^"+t]
+		if !ok {
+			break
+		}
+		t = n
+	}
+	return t
+}
+
+func isLitName(t string) bool { return t == "empty_Str" || strings.HasPrefix(t, "lit!") }
+
+// knownDifferent: term is known (from an assumed disequality) to differ from the literal
+func (s *State) knownDifferent(term, lit string) bool {
+	if s.lits == nil {
+		return false
+	}
+	_, ok := s.lits["!"+s.find(term)+"!"+lit]
+	return ok
+}
+
+func (s *State) litOf(t string) string {
+	if isLitName(t) {
+		return t
+	}
+	if s.lits != nil {
+		if l, ok := s.lits["="+s.find(t)]; ok {
+			return l
+		}
+	}
+	return ""
+}
+
+func topConjuncts(t string) []string {
+	p := sexpArgs(t)
+	if len(p) > 0 && p[0] == "and" {
+		var out []string
+		for _, x := range p[1:] {
+			out = append(out, topConjuncts(x)...)
+		}
+		return out
+	}
+	return []string{t}
+}
+
+// sexpArgs splits "(f a b)" into [f a b]; atoms give nil.
+func sexpArgs(t string) []string {
+	if len(t) < 2 || t[0] != '(' || t[len(t)-1] != ')' {
+		return nil
+	}
+	body := t[1 : len(t)-1]
+	var out []string
+	depth, start := 0, -1
+	for i := 0; i < len(body); i++ {
+		ch := body[i]
+		switch {
+		case ch == '(':
+			if depth == 0 && start < 0 {
+				start = i
+			}
+			depth++
+		case ch == ')':
+			depth--
+			if depth == 0 {
+				out = append(out, body[start:i+1])
+				start = -1
+			}
+		case ch == ' ' || ch == '\n':
+			if depth == 0 && start >= 0 {
+				out = append(out, body[start:i])
+				start = -1
+			}
+		default:
+			if depth == 0 && start < 0 {
+				start = i
+			}
+		}
+	}
+	if start >= 0 {
+		out = append(out, body[start:])
+	}
+	return out
 }
 
 func (s *State) pcTerm() string { return tAnd(s.pc...) }
@@ -86,8 +254,8 @@ type Obligation struct {
 	Pos     string
 	Hyps    []string
 	Goal    string
-	Expect  string // "unsat" (default) or "notunsat" (vacuity)
-	Clause  string // contract clause source, for reports
+	Expect  string            // "unsat" (default) or "notunsat" (vacuity)
+	Clause  string            // contract clause source, for reports
 	Inputs  map[string]string // name -> SMT term of the function's inputs (for model read-back)
 	Only    []string
 	Timeout int
@@ -102,6 +270,7 @@ type Verifier struct {
 	funcPkg  map[string]*packages.Package
 	assumed  map[string]bool // assumption strings
 	repoRoot string
+	effects  map[string]*Effects
 }
 
 func funcKey(pkgName string, fd *ast.FuncDecl) string {
@@ -149,62 +318,70 @@ func typesFuncKey(f *types.Func) string {
 
 // FnCtx: one function under verification
 type FnCtx struct {
-	V        *Verifier
-	pkg      *packages.Package
-	info     *types.Info
-	fd       *ast.FuncDecl
-	key      string
-	con      *Contract
-	decls    *Decls
-	facts    []string
-	obls     []*Obligation
-	nfresh   int
-	entry    map[string]*Val // param name -> entry value
-	pre      *State
-	params   []types.Object
-	results  []types.Object
-	resNames []string
-	loopOrd  map[ast.Node]int
-	nopanic  bool
-	ieee     bool
-	warns    []string
-	assumes  map[string]bool
-	lits     map[string]string // go string -> literal const
-	litOrder []string
-	refs     []string // fresh allocated refs
-	inputs   map[string]string
-	splitTag string
-	rejected string
-	depth    int
-	usedCons map[string]bool // callee contracts used
-	labels   map[string]int  // at-label counters
-	curFn    []*ast.FuncLit
-	retStates []*State
-	nObl     map[string]int
-	errGlobals   map[string]bool
-	boxedScalars map[types.Object]string
-	typeTags     map[string]bool
-	overflow     bool
-	needStrOrder bool
-	frames       []*frame
-	closureLits  map[types.Object]*ast.FuncLit
-	inModScan    map[*ast.FuncLit]bool
-	hiddenIdx    map[ast.Node]types.Object
-	rangeIdx     map[ast.Node]types.Object
-	rangeLen     map[ast.Node]string
-	callOrds     map[*ast.CallExpr]int
-	nocontract   map[string]bool
-	externNoCon  map[string]bool
-	havocAllHeap bool
-	specErrs     []string
-	ghostDefs    []string
-	usedAxioms   []string
-	inTrial      map[ast.Node]bool
-	curRecvExpr  ast.Expr
-	iterExtra    map[ast.Node][]types.Object
-	iterCount    *Val
-	arbDepth     int
-	iterLast     *Val
+	V             *Verifier
+	pkg           *packages.Package
+	info          *types.Info
+	fd            *ast.FuncDecl
+	key           string
+	con           *Contract
+	decls         *Decls
+	facts         []string
+	obls          []*Obligation
+	nfresh        int
+	entry         map[string]*Val // param name -> entry value
+	pre           *State
+	params        []types.Object
+	results       []types.Object
+	resNames      []string
+	loopOrd       map[ast.Node]int
+	nopanic       bool
+	ieee          bool
+	warns         []string
+	assumes       map[string]bool
+	lits          map[string]string // go string -> literal const
+	litOrder      []string
+	refs          []string // fresh allocated refs
+	inputs        map[string]string
+	splitTag      string
+	rejected      string
+	depth         int
+	usedCons      map[string]bool // callee contracts used
+	labels        map[string]int  // at-label counters
+	curFn         []*ast.FuncLit
+	retStates     []*State
+	nObl          map[string]int
+	errGlobals    map[string]bool
+	boxedScalars  map[types.Object]string
+	typeTags      map[string]bool
+	overflow      bool
+	needStrOrder  bool
+	frames        []*frame
+	closureLits   map[types.Object]*ast.FuncLit
+	inModScan     map[*ast.FuncLit]bool
+	hiddenIdx     map[ast.Node]types.Object
+	rangeIdx      map[ast.Node]types.Object
+	rangeLen      map[ast.Node]string
+	callOrds      map[*ast.CallExpr]int
+	nocontract    map[string]bool
+	externNoCon   map[string]bool
+	havocAllHeap  bool
+	specErrs      []string
+	ghostDefs     []string
+	usedAxioms    []string
+	inTrial       map[ast.Node]bool
+	curRecvExpr   ast.Expr
+	iterExtra     map[ast.Node][]types.Object
+	iterCount     *Val
+	arbDepth      int
+	named         map[string]string
+	inlining      map[string]int
+	splitAtCall   string
+	factSyms      [][]string
+	symFacts      map[string][]int
+	preludeHead   string
+	splitConds    []Clause
+	autoFramed    map[string]bool
+	iterLast      *Val
 	inferredNotes []string
 }
 
@@ -703,6 +880,21 @@ func sameDefers(a, b []*Deferred) bool {
 
 // mergeStates merges states pairwise-compatible (same defer stack) into one; incompatible are kept apart.
 func (c *FnCtx) mergeStates(sts []*State) []*State {
+	// drop infeasible states
+	live := sts[:0:0]
+	for _, s := range sts {
+		dead := false
+		for _, p := range s.pc {
+			if p == "false" {
+				dead = true
+				break
+			}
+		}
+		if !dead {
+			live = append(live, s)
+		}
+	}
+	sts = live
 	if len(sts) <= 1 {
 		return sts
 	}
@@ -742,10 +934,28 @@ func (c *FnCtx) merge(sts []*State) *State {
 	}
 	rests := make([]string, len(sts))
 	for i, s := range sts {
-		rests[i] = tAnd(s.pc[n:]...)
+		rests[i] = c.nameBool(tAnd(s.pc[n:]...), "mc")
 	}
 	out := &State{pc: append([]string(nil), sts[0].pc[:n]...), vars: map[types.Object]*Val{}, heap: map[string]string{}, ghost: map[string]string{}, defers: sts[0].defers}
 	out.assume(tOr(rests...))
+	for _, s := range sts {
+		if s.splitIdx > out.splitIdx {
+			out.splitIdx = s.splitIdx
+		}
+	}
+	// literal knowledge common to all
+	for k, l := range sts[0].lits {
+		all := true
+		for _, s := range sts[1:] {
+			if s.lits[k] != l {
+				all = false
+				break
+			}
+		}
+		if all {
+			out.put(k, l)
+		}
+	}
 	// vars: union of keys present in all
 	for k, v0 := range sts[0].vars {
 		vals := []*Val{v0}
@@ -826,6 +1036,34 @@ func (c *FnCtx) merge(sts []*State) *State {
 		out.ghost[k] = f
 	}
 	return out
+}
+
+// nameBool introduces a fresh Boolean constant for a large formula (keeps terms small; definitional fact).
+func (c *FnCtx) nameBool(t string, hint string) string {
+	if len(t) <= 160 {
+		return t
+	}
+	if n, ok := c.named[t]; ok {
+		return n
+	}
+	n := c.fresh(hint, SBool)
+	c.addFact(tEq(n, t))
+	c.named[t] = n
+	return n
+}
+
+// nameTerm does the same for a value term of the given sort.
+func (c *FnCtx) nameTerm(t string, s Sort, hint string) string {
+	if len(t) <= 400 || s == SNone {
+		return t
+	}
+	if n, ok := c.named[t]; ok {
+		return n
+	}
+	n := c.fresh(hint, s)
+	c.addFact(tEq(n, t))
+	c.named[t] = n
+	return n
 }
 
 // defineMerged states f = ite(c0,t0, ite(c1,t1, ... tn)) — consistent whatever the conditions are.
